@@ -99,8 +99,8 @@ def make_machine(feed):
 
 
 SUBS = [
-    Sub("history", check, strategy=lambda tier: store.history_strategy(40 if tier == "quick" else 60), nontrivial=nontrivial, classes=classes, n_quick=400, n_thorough=2500),
-    Sub("dense-links", check, strategy=lambda tier: store.dense_history_strategy(25 if tier == "quick" else 40), nontrivial=nontrivial, classes=classes, n_quick=300, n_thorough=2000),
-    Sub("insert-churn", check, strategy=lambda tier: store.insert_churn_strategy(12 if tier == "quick" else 20), nontrivial=nontrivial, classes=classes, n_quick=150, n_thorough=1000),
+    Sub("history", check, fuzz_runs=5000, strategy=lambda tier: store.history_strategy(40 if tier == "quick" else 60), nontrivial=nontrivial, classes=classes, n_quick=400, n_thorough=2500),
+    Sub("dense-links", check, fuzz_runs=4000, strategy=lambda tier: store.dense_history_strategy(25 if tier == "quick" else 40), nontrivial=nontrivial, classes=classes, n_quick=300, n_thorough=2000),
+    Sub("insert-churn", check, fuzz_runs=3000, strategy=lambda tier: store.insert_churn_strategy(12 if tier == "quick" else 20), nontrivial=nontrivial, classes=classes, n_quick=150, n_thorough=1000),
     Sub("machine", check, machine=make_machine, nontrivial=nontrivial, classes=classes, n_quick=100, n_thorough=600),
 ]
